@@ -46,7 +46,7 @@ prop("C17",
                   "rejections are ValueError (documented); an invalid criteria name is out of domain"],
      title="MUSIC / EV resolve exact sinusoids and expose the data-matrix spectrum")
 
-NFFTS = [64, 65, 24, 25, 32, 33, 49, 50, 100, 101, 127, 128, 255, 256]
+NFFTS = [64, 65, 24, 25, 32, 33, 49, 50, 100, 101, 127, 128, 255, 256, 4096, 8192, 10007, 16384]   # the last four: grids far longer than the record
 TWO_PI = 2 * math.pi
 EV_SPAN = 1e6
 
